@@ -143,10 +143,116 @@ let search2 args =
     Printf.printf "searched %d witnesses %d\n" !searched !wit
   | _ -> prerr_endline "usage: search2 arity psize thr ord lg0 nkeys hvals fuel [max]"
 
+(* ------------------------------------------------------------------------------------------------------------
+   Split-list and Feldman structural models (LV.Model.SplitSeq / FeldmanSeq through SplitSeqObs / FeldmanSeqObs).
+   Each extracted module has its own copies of nat / positive / N, hence the two sets of converters.  Hash values
+   and split-order keys are 64-bit unsigned: they travel as Int64 (bit pattern), are read with "0u" and printed
+   with %Lu.
+
+   c17_exe runsplit       cases on stdin:
+        case <id> / cfg <items> <load factor> <dynamic 0/1> <list kind> <sweep 0/1> / hash <h(0)> ... / ops ... / end
+      output per case:
+        case <id>
+        cap <bucket table capacity> lf <load factor>
+        op <j> res=<0|1> size=<n> lg=<log2 bucket count> dropped= found=<keys found by the sweep, or empty>
+        lay <j> max=<max item count|inf> new=<buckets initialised by the op> rec=<new - 1: recursive init_bucket calls> list=<so:dummy:key;...> buckets=<b:pos,...>
+        lay2 <j> list=... buckets=...          (after the contains-sweep; only with sweep = 1)
+        finalfound <k,k,..> / finallay list=... buckets=... / final <regular keys in list order> / endcase
+   c17_exe runfeldman     cfg <hash width> <head bits> <array bits>
+      output per case:
+        case <id> / met <effective head bits> <effective array bits>
+        op <j> res=<0|1|2> size=<n> lg=0 dropped= found=<keys whose hash is contained>
+        tree <j> <tokens: _ empty, <hash> data, [ array begin, ] array end>   (head array: the outermost, not bracketed)
+        ls <j> <array nodes:data cells:array cells:empty cells per level, comma separated>
+        finalh <hashes in iteration order> / endcase *)
+
+let u64_of_string w = Int64.of_string ("0u" ^ w)
+let u64s_of_line s = List.filter_map (fun w -> if w = "" then None else Some (u64_of_string w)) (String.split_on_char ' ' s)
+let joins sep l = String.concat sep l
+
+module SC = struct
+  open C17split
+  let rec nat_of_int i = if i <= 0 then O else S (nat_of_int (i - 1))
+  let rec int_of_nat = function O -> 0 | S n -> 1 + int_of_nat n
+  let rec pos_of_i64 i = if i = 1L then XH else if Int64.logand i 1L = 0L then XO (pos_of_i64 (Int64.shift_right_logical i 1))
+    else XI (pos_of_i64 (Int64.shift_right_logical i 1))
+  let n_of_i64 i = if i = 0L then N0 else Npos (pos_of_i64 i)
+  let rec i64_of_pos = function XH -> 1L | XO p -> Int64.shift_left (i64_of_pos p) 1 | XI p -> Int64.logor (Int64.shift_left (i64_of_pos p) 1) 1L
+  let i64_of_n = function N0 -> 0L | Npos p -> i64_of_pos p
+  let str_n x = Printf.sprintf "%Lu" (i64_of_n x)
+  let rec pairs = function a :: b :: r -> (n_of_i64 a, n_of_i64 b) :: pairs r | _ -> []
+
+  let show_lay t =
+    let l = joins ";" (List.map (fun ((so, d), k) -> Printf.sprintf "%s:%d:%s" (str_n so) (if d then 1 else 0) (str_n k)) (layout t)) in
+    let bp = List.sort compare (List.map (fun (b, p) -> (i64_of_n b, int_of_nat p)) (bucket_pos t)) in
+    Printf.sprintf "list=%s buckets=%s" l (joins "," (List.map (fun (b, p) -> Printf.sprintf "%Lu:%d" b p) bp))
+
+  let print_case id cfg hashes ops =
+    Printf.printf "case %s\n" id;
+    let ht = match hashes with t :: _ -> List.map n_of_i64 t | [] -> [] in
+    let cfgn = List.map n_of_i64 cfg in
+    let sweep = match cfg with _ :: _ :: _ :: _ :: sw :: _ -> sw <> 0L | _ -> false in
+    let (outs, (ffound, tf)) = sp_run_case cfgn ht (pairs ops) in
+    Printf.printf "cap %d lf %d\n" (int_of_nat tf.scap) (int_of_nat tf.slf);
+    List.iteri (fun j o ->
+        Printf.printf "op %d res=%d size=%d lg=%d dropped= found=%s\n" j (if o.o_res then 1 else 0) (int_of_nat o.o_t.sc) (int_of_nat o.o_t.blog)
+          (joins "," (List.map str_n o.o_found));
+        (* sequentially every init_bucket call creates one bucket: recursive calls = buckets created - 1 *)
+        Printf.printf "lay %d max=%s new=%d rec=%d %s\n" j (match o.o_t.smax with None -> "inf" | Some m -> string_of_int (int_of_nat m))
+          (int_of_nat o.o_new) (max 0 (int_of_nat o.o_new - 1)) (show_lay o.o_t);
+        if sweep then Printf.printf "lay2 %d %s\n" j (show_lay o.o_t2)) outs;
+    Printf.printf "finalfound %s\n" (joins "," (List.map str_n ffound));
+    Printf.printf "finallay %s\n" (show_lay tf);
+    Printf.printf "final%s\n" (String.concat "" (List.filter_map (fun ((_, d), k) -> if d then None else Some (" " ^ str_n k)) (layout tf)));
+    Printf.printf "endcase\n"
+end
+
+module FC = struct
+  open C17feldman
+  let rec int_of_nat = function O -> 0 | S n -> 1 + int_of_nat n
+  let rec pos_of_i64 i = if i = 1L then XH else if Int64.logand i 1L = 0L then XO (pos_of_i64 (Int64.shift_right_logical i 1))
+    else XI (pos_of_i64 (Int64.shift_right_logical i 1))
+  let n_of_i64 i = if i = 0L then N0 else Npos (pos_of_i64 i)
+  let rec i64_of_pos = function XH -> 1L | XO p -> Int64.shift_left (i64_of_pos p) 1 | XI p -> Int64.logor (Int64.shift_left (i64_of_pos p) 1) 1L
+  let i64_of_n = function N0 -> 0L | Npos p -> i64_of_pos p
+  let str_n x = Printf.sprintf "%Lu" (i64_of_n x)
+  let rec pairs = function a :: b :: r -> (n_of_i64 a, n_of_i64 b) :: pairs r | _ -> []
+
+  let print_case id cfg hashes ops =
+    Printf.printf "case %s\n" id;
+    let ht = match hashes with t :: _ -> List.map n_of_i64 t | [] -> [] in
+    let ((hb, ab), outs) = f_run_case (List.map n_of_i64 cfg) ht (pairs ops) in
+    Printf.printf "met %d %d\n" (int_of_nat hb) (int_of_nat ab);
+    let last = ref None in
+    List.iteri (fun j ((r, t), found) ->
+        Printf.printf "op %d res=%d size=%d lg=0 dropped= found=%s\n" j (int_of_nat r) (int_of_nat t.fcnt) (joins "," (List.map str_n found));
+        Printf.printf "tree %d %s\n" j (joins " " (List.map (fun (k, x) -> match int_of_nat k with 0 -> "_" | 1 -> str_n x | 2 -> "[" | _ -> "]") (fdump_set t)));
+        Printf.printf "ls %d %s\n" j (joins "," (List.map (fun (((a, d), c), e) -> Printf.sprintf "%d:%d:%d:%d" (int_of_nat a) (int_of_nat d) (int_of_nat c) (int_of_nat e)) (level_stats t)));
+        last := Some t) outs;
+    Printf.printf "finalh%s\n" (match !last with None -> "" | Some t -> String.concat "" (List.map (fun x -> " " ^ str_n x) (f_elems t)));
+    Printf.printf "endcase\n"
+end
+
+let run64 printer =
+  let id = ref "" and cfg = ref [] and hashes = ref [] and ops = ref [] in
+  (try
+     while true do
+       let line = String.trim (input_line stdin) in
+       if String.length line >= 5 && String.sub line 0 5 = "case " then begin
+         id := String.sub line 5 (String.length line - 5); cfg := []; hashes := []; ops := [] end
+       else if String.length line >= 4 && String.sub line 0 4 = "cfg " then cfg := u64s_of_line (String.sub line 4 (String.length line - 4))
+       else if String.length line >= 5 && String.sub line 0 5 = "hash " then hashes := !hashes @ [u64s_of_line (String.sub line 5 (String.length line - 5))]
+       else if String.length line >= 3 && String.sub line 0 3 = "ops" then ops := u64s_of_line (String.sub line 3 (String.length line - 3))
+       else if line = "end" then printer !id !cfg !hashes !ops
+     done
+   with End_of_file -> ())
+
 let () =
   match Array.to_list Sys.argv with
   | _ :: "search2" :: args -> search2 args
   | _ :: "run" :: _ -> run false
   | _ :: "runs" :: _ -> run true
+  | _ :: "runsplit" :: _ -> run64 SC.print_case
+  | _ :: "runfeldman" :: _ -> run64 FC.print_case
   | _ :: "search" :: args -> search args
   | _ -> prerr_endline "usage: c17_exe run | search ..."
